@@ -263,12 +263,12 @@ class AsyncFIXConnection:
                 " order to get valid response handling"
             )
 
-        encoded_msg = self._codec.encode(msg, self._session).encode("utf-8")
+        encoded_msg = self._codec.encode(msg, self._session).encode("latin-1")
 
         msg_raw = encoded_msg.replace(b"\x01", b"|")
         self.log.debug(
             f"[{self._connection_role.name}]:send_msg ({self._connection_state.name})"
-            f" {repr(msg.msg_type)}\n\t {msg_raw.decode()}\n"
+            f" {repr(msg.msg_type)}\n\t {msg_raw.decode("latin-1")}\n"
         )
 
         # Journal first: a message which could have reached the peer must be
@@ -692,7 +692,7 @@ class AsyncFIXConnection:
 
     async def _send_retransmission(self, msg: FIXMessage):
         """Sends message which keeps its MsgSeqNum (journal and session are intact)."""
-        encoded_msg = self._codec.encode(msg, self._session).encode("utf-8")
+        encoded_msg = self._codec.encode(msg, self._session).encode("latin-1")
         self._socket_writer.write(encoded_msg)
         await self._socket_writer.drain()
 
